@@ -91,6 +91,10 @@ func VerifAssert(c bool, msg string) {
 func VerifReach(msg string)  { VerifLog = append(VerifLog, msg) }
 func VerifObserve(v int64)   { VerifLog = append(VerifLog, fmt.Sprintf("obs:%d", v)) }
 func VerifNote(msg string)   {}
+// VerifNative: true in native replays, false under the symbolic executor. Only
+// for checks of the harness itself that are too slow to execute symbolically.
+func VerifNative() bool { return true }
+func verifNative() bool { return VerifNative() }
 func VerifTier() int {
 	if os.Getenv("VERIF_TIER") == "thorough" {
 		return 1
